@@ -4,7 +4,7 @@
    [read_first] = lexer + flat parser + conversion on the whole text; ROk d 0 = the datum d was read and the
    whole text was consumed. *)
 From Coq Require Import NArith ZArith List Bool Ascii String.
-From SV Require Import c12.Model_C12 c12.Proofs_C12.
+From SV Require Import c12.Model_C12 c12.Proofs_C12 c12.Proofs_C12_Parse c12.Proofs_C12_ReadWrite c12.Proofs_C12_Total.
 Import ListNotations.
 Open Scope N_scope.
 
@@ -43,6 +43,39 @@ Proof. exact symbol_roundtrip_read. Qed.
 Theorem symbol_refuted : exists s, read_first (write pr_ascii (DSym s)) <> ROk (DSym s) 0.
 Proof. exact symbol_refuted_. Qed.
 
+(* exact rationals n/d (reduced, d > 1) of any magnitude *)
+Theorem number_roundtrip_rational : forall n d,
+  (1 < d)%Z -> Z.gcd n d = 1%Z -> read_first (write_rat n d) = ROk (DRat n d) 0.
+Proof. exact rational_roundtrip_read_. Qed.
+
+Theorem rational_roundtrip_lex : forall n p t fuel,
+  delim_start t ->
+  lex_one fuel ((write_int n ++ 47 :: write_nat (N.pos p)) ++ t)
+  = LToks [TNum (NRat n (Z.pos p))] ((write_int n ++ 47 :: write_nat (N.pos p)) ++ t) t.
+Proof. exact rational_roundtrip_lex_. Qed.
+
+(* THE round trip, by structural induction on the datum: nested proper lists, dotted pairs, vectors, byte vectors,
+   quotation forms, over every exact atom.  [rep d] excludes exactly: floats, symbols needing bars (F8), a list /
+   vector / pair headed by unquote or unquote-splicing (known finding), a pair whose cdr is a proper list (not a
+   value: cons onto a list is a list).  The reader's fuel is its own length-based bound (read_first), and the
+   result ROk excludes out-of-fuel. *)
+Theorem read_write : forall pr d, rep d -> (height d <= 128)%nat -> read_first (write pr d) = ROk d 0.
+Proof. exact read_write_. Qed.
+
+(* the two halves it is made of: the lexer yields the datum's tokens, the flat parser rebuilds the datum *)
+Theorem lex_written_datum : forall pr d, rep d ->
+  forall t fuel, delim_start t -> (List.length (write_u pr d ++ t) < fuel)%nat ->
+  exists (ts : list stok) (x : stok),
+    map tokof (ts ++ [x]) = tk_of d /\ snd x = blen t /\
+    (List.length (ts ++ [x]) <= List.length (write_u pr d))%nat /\
+    lex_all fuel (write_u pr d ++ t) = option_map (app (ts ++ [x])) (lex_all (fuel - List.length (ts ++ [x])) t).
+Proof. exact L_all. Qed.
+
+Theorem parse_tokens_of_datum : forall d tot (ts ts0 : list stok) (x : stok),
+  rep d -> is_compound d -> map tokof ts = tk_of d -> ts = ts0 ++ [x] ->
+  read_tokens tot ts = ROk d (snd x).
+Proof. exact read_tokens_compound. Qed.
+
 (* every atomic datum *)
 Theorem read_write_atom : forall pr d, atom_representable d -> read_first (write pr d) = ROk d 0.
 Proof. exact read_write_atom_. Qed.
@@ -65,6 +98,18 @@ Proof. exact unquote_refuted_. Qed.
 (* the reader fails itself (debug assertion) on a 9-character text (known finding) *)
 Theorem reader_panic_witness : read_first (cps "'(quote x") = RPanic.
 Proof. exact reader_panic_witness_. Qed.
+
+(* totality of the lexer and soundness of every reported source location, for ALL texts (lists of code points):
+   with its own length-based fuel the lexer never runs out (lex s = Some ..), and every token / error span (a, b),
+   given as byte lengths of the remaining suffix at token start / end, satisfies b <= a <= blen s, i.e. the
+   absolute offsets  blen s - a <= blen s - b <= blen s  lie inside the text *)
+Theorem lex_total : forall s, exists ts, lex s = Some ts /\ Forall (span_ok (blen s)) ts.
+Proof. exact lex_total_. Qed.
+
+(* one step of the lexer: what it consumes is a prefix of the text after leading whitespace, at least one
+   character per token (so the token stream is finite), errors included *)
+Theorem lex_one_total : forall fuel s0, (List.length s0 < fuel)%nat -> lstep_ok s0 (lex_one fuel s0).
+Proof. exact lex_one_ok. Qed.
 
 (* non-vacuity / compound data: one nested datum with every kind *)
 Example C12_nonvacuous : read_first (write pr_ascii sample_datum) = ROk sample_datum 0.
